@@ -508,11 +508,16 @@ namespace detail
 template<typename V, int Rule>
 struct Mk
 {
+    // state of the functor OBJECT: which parser object it was given to (0: the constexpr instance, 1: the instance the
+    // factory builds at run time). Two parser objects of one C++ type differ only in such state; a call on one of them
+    // must run ITS functors (S105: a per-type cache of the first object's functor table)
+    int owner = 0;
     template<typename... A>
     V operator()(A&&... a) const
     {
         detail::Builder<V> b(Rule);
         (b.add(std::forward<A>(a)), ...);
+        simrt::functor_owner(owner);
         return b.finish(0);
     }
 };
@@ -521,9 +526,11 @@ struct Mk
 template<typename V, int Rule>
 struct MkCtx
 {
+    int owner = 0;
     template<typename C, typename... A>
     V operator()(C&& c, A&&... a) const
     {
+        simrt::functor_owner(owner);
         int touched = ctx_touch(std::forward<C>(c), Rule);
         // 1: not a SimCtx (plain parse), 2: SimCtx received as an lvalue, 3: SimCtx received as an rvalue (temporary context)
         int category = touched ? (std::is_lvalue_reference_v<C> ? 2 : 3) : 1;
